@@ -106,7 +106,15 @@ pub fn gen_ws_conn(r: &mut Rng, nonce: &mut u64, port: u16, allow_faults: bool, 
     }
     let key = gen_key(r);
     // which elements are broken (bit set = broken)
-    let broken: u32 = if r.chance(1, 2) { 0 } else { r.range(1, 15) as u32 };
+    // (half of the invalid handshakes lack exactly one element, so that no
+    // other missing element hides what a single one does)
+    let broken: u32 = if r.chance(1, 2) {
+        0
+    } else if r.chance(1, 2) {
+        *r.pick(&[1u32, 2, 4, 8])
+    } else {
+        r.range(1, 15) as u32
+    };
     let mut why = Vec::new();
     let mut tab = false;
     let mut headers: Vec<(String, Vec<u8>)> = vec![
